@@ -217,7 +217,7 @@ yield1:
 	 * has been called, then off would be 0 and __ctx->bno would be
 	 * the buffer filled so far, if no more bytes could be read then
 	 * we'd proceed processing them (off < __ctx->bno + nrd */
-	if (UNLIKELY(!nrd && off < bno && ctx->cur_lno <= ctx->tot_lno)) {
+	if (UNLIKELY(!nrd && off < bno && memchr(off, '\n', bno - off) == NULL)) {
 		/* last line then, unyielded :| */
 		set_loff(ctx, ctx->tot_lno, bno - ctx->buf);
 		off = bno;
@@ -244,10 +244,11 @@ yield2:
 		size_t rsz = bno - off;
 		char *p = memchr(off, '\n', rsz);
 		if (UNLIKELY(p == NULL)) {
-			if (LIKELY(nrd > 0)) {
+			if (LIKELY(nrd >= 0)) {
+				/* unfinished line, see if there's more */
 				break;
 			}
-			/* not concluded with \n, let's hope we're in drain mode */
+			/* not concluded with \n and the read failed */
 			return -1;
 		}
 		/* massage our status structures */
